@@ -17,6 +17,7 @@ import Vicut.Model.Verbs
 import Vicut.Model.Pos
 import Vicut.Model.Repeat
 import Vicut.Model.Vic
+import Vicut.Model.VimSpec
 
 open Lean Vicut
 
@@ -498,6 +499,19 @@ def opVic (req : Json) : Json :=
   | .ok lines => Json.mkObj [("out", Json.arr (lines.map Json.str).toArray)]
   | .error e => Json.mkObj [("err", Json.str e)]
 
+/-- `{"op":"vimspec","line":s,"cur":n,"cmds":[["h",n]|["l",n]|["0"]|["$"]|["x",n]|["X",n]]}` -/
+def opVimSpec (req : Json) : Json :=
+  let cmds : List Vicut.VimSpec.VCmd := (jarr req "cmds").toList.filterMap fun c =>
+    match c with
+    | .arr a =>
+      let n : Nat := (a[1]?.bind (fun x => x.getNat?.toOption)).getD 1
+      match (a[0]?.bind (fun x => x.getStr?.toOption)).getD "" with
+      | "h" => some (.h n) | "l" => some (.l n) | "0" => some .zero | "$" => some .dollar
+      | "x" => some (.x n) | "X" => some (.X n) | _ => none
+    | _ => none
+  let s := Vicut.VimSpec.run ⟨(jstr req "line").toList, jnat req "cur"⟩ cmds
+  Json.mkObj [("line", Json.str (String.ofList s.line)), ("cur", s.cur)]
+
 def dispatch (req : Json) : Json :=
   match jstr req "op" with
   | "ping" => Json.mkObj [("pong", true)]
@@ -516,6 +530,7 @@ def dispatch (req : Json) : Json :=
   | "pos" => opPos req
   | "dot" => opDot req
   | "vic" => opVic req
+  | "vimspec" => opVimSpec req
   | op => Json.mkObj [("err", Json.str s!"unknown op {op}")]
 
 partial def loop (h : IO.FS.Stream) (out : IO.FS.Stream) : IO Unit := do
